@@ -30,6 +30,7 @@ type localCfg struct {
 	equiv   bool // also offer equivocating votes
 	maj23   bool // also offer peer +2/3 claims (VoteSetMaj23) and re-delivery of equivocating votes
 	nodrain bool // own messages are handled as explicit inputs (StepInternal) instead of immediately
+	late    bool // also offer superseded timeouts arriving late (each at most once)
 	depth   int
 	maxSt   int
 	prefix  []string // scripted inputs (by name) leading to the state the BFS starts from
@@ -49,6 +50,8 @@ const (
 	inMaj23     // a peer claims +2/3 for this value in (r,t) (what the reactor does on a VoteSetMaj23Message)
 	inTimeout
 	inInternal
+	inLateTimeout // a timeout the ticker had accepted and that was superseded before the harness fired it arrives now (its timer
+	// had already fired and the tock was in flight): `j` = 0 the most recent such timeout, 1 the one before
 )
 
 type input struct {
@@ -68,6 +71,9 @@ func (c *localCfg) alphabet(f *csnet.Fixture) []input {
 	a = append(a, input{kind: inTimeout})
 	if c.nodrain {
 		a = append(a, input{kind: inInternal})
+	}
+	if c.late {
+		a = append(a, input{kind: inLateTimeout, j: 0}, input{kind: inLateTimeout, j: 1})
 	}
 	for r := 0; r < c.rounds; r++ {
 		for b := 0; b < 2; b++ {
@@ -139,6 +145,8 @@ func (in input) String() string {
 		return "FireTimeout"
 	case inInternal:
 		return "StepInternal"
+	case inLateTimeout:
+		return fmt.Sprintf("LateTimeout(superseded,%d back)", in.j)
 	}
 	return "?"
 }
@@ -164,6 +172,21 @@ type localInst struct {
 	sentSeen int
 	commits  int
 	height   uint64
+	toDone   map[int]bool // indices of the ticker's log that were delivered (fired in time, or late)
+}
+
+// lateCandidates: the timeouts the ticker accepted that were neither delivered nor are the pending one, oldest first.
+func (li *localInst) lateCandidates() []int {
+	log := li.n.TimeoutLog()
+	_, pending := li.n.PendingTimeout()
+	var out []int
+	for i := range log {
+		if li.toDone[i] || (pending && i == len(log)-1) {
+			continue
+		}
+		out = append(out, i)
+	}
+	return out
 }
 
 var (
@@ -174,7 +197,7 @@ var (
 
 func newLocal(c *localCfg, f *csnet.Fixture) *localInst {
 	li := &localInst{c: c, f: f, soup: newSoup(c.powers), used: map[vsKey]map[int]map[string]bool{}, height: 1,
-		first: map[vsKey]map[int]string{}, redeliv: map[string]int{}, claims: map[string]bool{}}
+		first: map[vsKey]map[int]string{}, redeliv: map[string]int{}, claims: map[string]bool{}, toDone: map[int]bool{}}
 	li.n = f.NewNode(c.self, 0)
 	// the two candidate blocks are the same for every execution of a search (MakeBlock is deterministic); the node only
 	// ever sees their parts (bytes) and decodes its own copy
@@ -255,9 +278,19 @@ func (li *localInst) apply(in input) bool {
 	n := li.n
 	switch in.kind {
 	case inTimeout:
-		if !n.FireTimeout() {
+		if _, ok := n.PendingTimeout(); !ok {
 			return false
 		}
+		li.toDone[len(n.TimeoutLog())-1] = true
+		n.FireTimeout()
+	case inLateTimeout:
+		cand := li.lateCandidates()
+		if in.j >= len(cand) {
+			return false
+		}
+		i := cand[len(cand)-1-in.j]
+		li.toDone[i] = true
+		n.InjectTimeout(n.TimeoutLog()[i])
 	case inInternal:
 		if n.StepInternal() == nil {
 			return false
@@ -488,6 +521,14 @@ func (li *localInst) key() string {
 		sort.Strings(rd)
 		extra = fmt.Sprintf(" claims=%v redeliv=%v", cl, rd)
 	}
+	if li.c.late {
+		log := li.n.TimeoutLog()
+		var lt []string
+		for _, i := range li.lateCandidates() {
+			lt = append(lt, log[i].String())
+		}
+		extra += fmt.Sprintf(" in-flight-timeouts=%v", lt)
+	}
 	return li.n.DigestSym(self) + " ## " + li.tallyKey() + extra
 }
 
@@ -514,7 +555,7 @@ func runLocal(r *vk.Run, c *localCfg) vk.Result {
 		OpName: func(i int) string { return alpha[i].String() },
 		Enabled: func(hist []int, op int) bool {
 			k := alpha[op].kind
-			return k == inTimeout || k == inInternal || k == inPartOnly || alpha[op].r >= c.minR
+			return k == inTimeout || k == inInternal || k == inPartOnly || k == inLateTimeout || alpha[op].r >= c.minR
 		},
 		Depth:           c.depth,
 		MaxState:        c.maxSt,
@@ -655,6 +696,12 @@ func localConfigs(r *vk.Run) []*localCfg {
 	// whatever the peers claim): round 0 only, from the locked state
 	out = append(out, &localCfg{name: fmt.Sprintf("eq4/self%d(non-proposer)/sym/equiv+maj23+redelivery/locked-A-r0", other), powers: eq, self: other, rounds: 1, sym: true,
 		equiv: true, maj23: true, split: true, depth: r.Pick(5, 7), maxSt: r.Pick(60000, 1500000), prefix: prefixes[2].pre, expect: prefixes[2].expect})
+	// timeouts that were superseded before they were delivered arrive late (the real ticker hands a fired timeout to a
+	// goroutine, which may deliver it after any number of newer events): from the start and from the locked state
+	out = append(out, &localCfg{name: fmt.Sprintf("eq4/self%d(non-proposer)/sym/late-timeouts/init", other), powers: eq, self: other, rounds: 2, sym: true,
+		late: true, depth: r.Pick(4, 6), maxSt: r.Pick(60000, 1500000), expect: "R0 S1 lock=- | "})
+	out = append(out, &localCfg{name: fmt.Sprintf("eq4/self%d(non-proposer)/sym/late-timeouts/locked-A-r0", other), powers: eq, self: other, rounds: 2, sym: true,
+		late: true, depth: r.Pick(4, 6), maxSt: r.Pick(60000, 1500000), prefix: prefixes[2].pre, expect: prefixes[2].expect})
 	if !r.Quick() {
 		// the node is the proposer of round 0 / round 1 (its own block O enters the alphabet implicitly)
 		for _, self := range []int{p0, p1} {
